@@ -19,6 +19,16 @@ import (
 // ---------------------------------------------------------------------------------------------------------------
 // frames (client -> server)
 
+// Dec decodes CBOR the way the harness reads protocol data: well-formedness is judged without a nesting limit of the
+// harness's own (the library default of 32 levels is a property of a configuration, not of the data).
+var Dec = func() cbor.DecMode {
+	m, err := cbor.DecOptions{MaxNestedLevels: 65535}.DecMode()
+	if err != nil {
+		panic(err)
+	}
+	return m
+}()
+
 func mustCBOR(v any) []byte {
 	b, err := cbor.Marshal(v)
 	if err != nil {
@@ -88,7 +98,7 @@ func ParseOutputLenient(b []byte) (hello *atp.HelloMessage, helloLen int, msgs [
 }
 
 func parseOutput(b []byte, lenient bool) (hello *atp.HelloMessage, helloLen int, msgs []OutMessage, trailing error) {
-	dec := cbor.NewDecoder(bytes.NewReader(b))
+	dec := Dec.NewDecoder(bytes.NewReader(b))
 	var h atp.HelloMessage
 	if err := dec.Decode(&h); err != nil {
 		if errors.Is(err, io.EOF) {
@@ -111,7 +121,7 @@ func parseOutput(b []byte, lenient bool) (hello *atp.HelloMessage, helloLen int,
 		switch m.MessageID {
 		case atp.MessageTypeWorkDone:
 			var wd atp.WorkDoneMessage
-			if err := cbor.Unmarshal(m.RawMessageData, &wd); err != nil {
+			if err := Dec.Unmarshal(m.RawMessageData, &wd); err != nil {
 				if lenient {
 					continue
 				}
@@ -120,7 +130,7 @@ func parseOutput(b []byte, lenient bool) (hello *atp.HelloMessage, helloLen int,
 			om.StepID, om.OutputID, om.OutputData = wd.StepID, wd.OutputID, wd.OutputData
 		case atp.MessageTypeError:
 			var em atp.ErrorMessage
-			if err := cbor.Unmarshal(m.RawMessageData, &em); err != nil {
+			if err := Dec.Unmarshal(m.RawMessageData, &em); err != nil {
 				if lenient {
 					continue
 				}
@@ -129,7 +139,7 @@ func parseOutput(b []byte, lenient bool) (hello *atp.HelloMessage, helloLen int,
 			om.Error, om.StepFatal, om.ServerFatal = em.Error, em.StepFatal, em.ServerFatal
 		case atp.MessageTypeSignal:
 			var sm atp.SignalMessage
-			if err := cbor.Unmarshal(m.RawMessageData, &sm); err != nil {
+			if err := Dec.Unmarshal(m.RawMessageData, &sm); err != nil {
 				if lenient {
 					continue
 				}
